@@ -112,6 +112,9 @@ pub struct Mask {
     pub d: u8,
     /// other entities (b, g, h): listed fully or not listed
     pub others_listed: bool,
+    /// known ancestor sets list the DIRECT parents only (the constructor computes the closure)
+    #[serde(default)]
+    pub direct_only: bool,
 }
 
 pub fn masks(tier: Tier) -> Vec<Mask> {
@@ -133,7 +136,12 @@ pub fn masks(tier: Tier) -> Vec<Mask> {
                                     continue;
                                 }
                             }
-                            out.push(Mask { p_unknown, r_unknown, ctx_unknown, a, d, others_listed });
+                            out.push(Mask { p_unknown, r_unknown, ctx_unknown, a, d, others_listed, direct_only: false });
+                            // the same view built from direct parents only (after seed C14-b1), where
+                            // the ancestors of a and d are known and the other entities are listed
+                            if [0u8, 1, 3].contains(&a) && [0u8, 1, 3].contains(&d) && others_listed && (tier == Tier::Thorough || (!p_unknown && !r_unknown)) {
+                                out.push(Mask { p_unknown, r_unknown, ctx_unknown, a, d, others_listed, direct_only: true });
+                            }
                         }
                     }
                 }
@@ -186,7 +194,13 @@ pub fn make_partial(req: &Req, store: &Store, m: &Mask, sch: &Schema, schema: &c
             continue;
         }
         let attrs = if code == 1 || code == 4 { None } else { Some(rx_map(&e.attrs)) };
-        let ancestors: Option<HashSet<cedar_policy::EntityUid>> = if code == 2 || code == 4 { None } else { Some(full.ancestors(u).iter().map(c_uid).collect()) };
+        let ancestors: Option<HashSet<cedar_policy::EntityUid>> = if code == 2 || code == 4 {
+            None
+        } else if m.direct_only {
+            Some(e.parents.iter().map(c_uid).collect())
+        } else {
+            Some(full.ancestors(u).iter().map(c_uid).collect())
+        };
         let tags = if code == 3 || code == 4 { None } else { Some(rx_map(&e.tags)) };
         pes.push(cedar_policy::PartialEntity::new(c_uid(u), attrs, ancestors, tags, schema).map_err(|e| format!("PartialEntity::new({u:?}): {e}"))?);
     }
